@@ -10,18 +10,102 @@ ENGINE = 'detsched'
 TECHNIQUE = 'runtime monitoring: random subscribe/publish histories against an identity-keyed registry model; delivery threads interleaved by a deterministic cooperative scheduler; exactly-once / no-phantom checker at quiescence'
 RULE = ('random histories of subscribe / publish calls over 2-5 queues (plain deques that are EQUAL BY CONTENT, deques with maxlen, '
         'LockingDeques), 1-4 signals, fifo and lifo subscriptions, repeated subscriptions in every position, subscription by Event and by '
-        'signal number, issued by the harness thread (a fifth of the subscriptions by 2-3 threads at once, for the same queue, signal and kind) (in 30% of the histories the fabric is stopped and started again at random points, without quiescence, so that publications are in flight) while the two real delivery threads are interleaved by detsched (random / PCT); at '
+        'signal number, issued by the harness thread (a fifth of the subscriptions by 2-3 threads at once, for the same queue, signal and kind) (a fifth of the publications by 2-3 threads at once) (in 30% of the histories the fabric is stopped and started again at random points, without quiescence, so that publications are in flight) while the two real delivery threads are interleaved by detsched (random / PCT); at '
         'quiescence every unique-id publication must be in a queue exactly once per subscription kind that was registered before the '
         'publish call, at most once more per kind registered later (it may still have been in transit), and never in a queue that did '
         'not subscribe to its signal. distinct_nontrivial = distinct (queues, signals, history shape) tuples with a repeated subscription')
 CASES = {'quick': 2500, 'thorough': 150000}
 BUDGET = {'quick': 150, 'thorough': 300}
-REQUIRE = {'histories': 1000, 'repeated_subscriptions': 1000, 'publications_checked': 8000, 'histories_with_equal_queues': 500, 'concurrent_subscriptions_of_one_queue': 1000, 'fabric_restarts_with_publications_possibly_in_flight': 300}
+REQUIRE = {'histories': 1000, 'repeated_subscriptions': 1000, 'publications_checked': 8000, 'histories_with_equal_queues': 500, 'concurrent_subscriptions_of_one_queue': 1000, 'fabric_restarts_with_publications_possibly_in_flight': 300, 'publications_made_by_several_threads_at_once': 500, 'os_backend_runs': 40}
 ASSUME = ['every publication is made while the fabric runs (it may be stopped and started again in between); capacities are large enough for every publication']
 ANNOUNCE_CASES = True
 
 
+def os_case(ctx, n):
+  """second opinion on real threads with the real primitives (vt/osback.py): 2-4 publisher threads and a subscriber thread race
+  the two real delivery threads; decided after the fabric's queues report every task done: exactly-once per subscription made
+  before the publish call, nothing for queues that never subscribed; a fabric that does not drain within the wall-clock limit is
+  inconclusive here, never a verdict"""
+  from vt import osback
+  rng = ctx.rng('os', n)
+  nq = rng.randint(2, 4)
+  sigs = ['F_OS%d' % i for i in range(rng.randint(1, 3))]
+  qtypes = [rng.choice(['deque', 'locking']) for _ in range(nq)]
+  queues = [collections.deque() if t == 'deque' else AO.LockingDeque() for t in qtypes]
+  early = [(rng.randrange(nq), rng.choice(sigs), rng.choice(['fifo', 'lifo'])) for _ in range(rng.randint(2, 6))]
+  late = [(rng.randrange(nq), rng.choice(sigs), rng.choice(['fifo', 'lifo'])) for _ in range(rng.randint(0, 4))]
+  plans, uid = [], 0
+  for _ in range(rng.randint(2, 4)):
+    pl = []
+    for _ in range(rng.randint(2, 8)):
+      uid += 1
+      pl.append((uid, rng.choice(sigs + ['F_OS_NOBODY']), rng.choice([None, 1, 5, 1000])))
+    plans.append(pl)
+  stamp = osback.Stamp()
+  pub_rec, sub_rec = {}, []
+  fabric = AO.ActiveFabricSource()
+  wit = {'backend': 'os threads', 'queues': qtypes, 'early': early, 'late': late, 'plans': plans}
+
+  def publisher(pl):
+    for u, sig, prio in pl:
+      t0 = stamp()
+      if prio is None:
+        fabric.publish(Event(signal=sig, payload=u))
+      else:
+        fabric.publish(Event(signal=sig, payload=u), priority=prio)
+      pub_rec[u] = (sig, t0, stamp())
+
+  def subscriber():
+    for qi, sig, kind in late:
+      t0 = stamp()
+      fabric.subscribe(queues[qi], Event(signal=sig), queue_type=kind)
+      sub_rec.append((qi, sig, kind, t0, stamp()))
+  try:
+    with osback.Perturb(rng.randrange(1 << 30), p_yield=rng.choice([0.05, 0.2, 0.5])) as P:
+      for qi, sig, kind in early:
+        fabric.subscribe(queues[qi], Event(signal=sig), queue_type=kind)
+        sub_rec.append((qi, sig, kind, 0, 0))
+      fabric.start()
+      finished, excs = osback.run_threads([(publisher, (pl,)) for pl in plans] + [(subscriber, ())], limit=30.0)
+      drained = finished and osback.wait_for(lambda: fabric.fifo_fabric_queue.unfinished_tasks == 0 and fabric.lifo_fabric_queue.unfinished_tasks == 0, limit=15.0)
+      alive = fabric.is_alive()
+    ctx.count('os_backend_yields_injected', P.nyields)
+    if excs:
+      ctx.count('os_backend_runs')
+      ctx.violation('C06/exception-in-thread', 'real threads: a publisher or subscriber raised: %r' % excs, wit)
+      return
+    if not alive and finished:
+      ctx.count('os_backend_runs')
+      ctx.violation('C06/exception-in-thread', 'real threads: a delivery thread of the running fabric ended', wit)
+      return
+    if not drained:
+      ctx.count('os_backend_inconclusive')
+      return
+    ctx.count('os_backend_runs')
+    for qi, q in enumerate(queues):
+      items = list(q.deque) if isinstance(q, AO.LockingDeque) else list(q)
+      cnt = collections.Counter(e.payload for e in items)
+      for u, (sig, p0, p1) in pub_rec.items():
+        ctx.count('os_backend_publications_checked')
+        kinds_before = set(k for (sq, ss, k, s0, s1) in sub_rec if sq == qi and ss == sig and s1 < p0)
+        kinds_any = set(k for (sq, ss, k, s0, s1) in sub_rec if sq == qi and ss == sig)
+        c = cnt.get(u, 0)
+        if c < len(kinds_before):
+          ctx.violation('C06/missing-delivery', 'real threads: publication %d (%s) is %d times in queue %d which subscribed to it %d time(s) (fifo/lifo) before it was published' % (u, sig, c, qi, len(kinds_before)), wit)
+          return
+        if c > len(kinds_any):
+          ctx.violation('C06/delivery-to-non-subscriber' if not kinds_any else 'C06/duplicate-delivery', 'real threads: publication %d (%s) is %d times in queue %d; its subscriptions allow at most %d' % (u, sig, c, qi, len(kinds_any)), wit)
+          return
+  finally:
+    try:
+      fabric.stop()
+    except Exception:
+      pass
+
+
 def run_case(ctx, n):
+  if n % 20 == 19:
+    return os_case(ctx, n)
   rng = ctx.rng('case', n)
   nq = rng.randint(2, 5)
   sigs = ['F_SIG%d' % i for i in range(rng.randint(1, 4))]
@@ -40,6 +124,11 @@ def run_case(ctx, n):
     else:
       uid += 1
       ops.append(('pub', uid, rng.choice(sigs + ['F_NOBODY']), rng.choice([None, 1, 5, 1000])))
+      if rng.random() < 0.2:
+        # 2-3 publications made by as many threads AT ONCE (active objects publish from their own threads)
+        for _ in range(rng.randint(1, 2)):
+          uid += 1
+          ops[-1] = ops[-1] + ((uid, rng.choice(sigs + ['F_NOBODY']), rng.choice([None, 1, 5, 1000])),)
   pol = dict(policy='random', p_switch=rng.choice([0.02, 0.1, 0.3, 0.6])) if rng.random() < 0.7 else dict(policy='pct', pct_depth=rng.choice([2, 3]), pct_len=600)
   s = ds.Sched(seed=rng.randrange(1 << 30), max_steps=2000000, **pol)
   ds.install(s, line_mods=[AO], log_deque=False)
@@ -87,12 +176,25 @@ def run_case(ctx, n):
           fabric.start()
           ctx.count('fabric_restarts_with_publications_possibly_in_flight')
         else:
-          _, u, sig, prio = op
+          def publish(u, sig, prio):
+            if prio is None:
+              fabric.publish(Event(signal=sig, payload=u))
+            else:
+              fabric.publish(Event(signal=sig, payload=u), priority=prio)
+          _, u, sig, prio = op[:4]
           pubs[u] = (sig, j)
-          if prio is None:
-            fabric.publish(Event(signal=sig, payload=u))
+          if len(op) > 4:
+            ctx.count('publications_made_by_several_threads_at_once', len(op) - 3)
+            ths = [ds.SThread(target=publish, args=(u, sig, prio))]
+            for (u2, sig2, prio2) in op[4:]:
+              pubs[u2] = (sig2, j)
+              ths.append(ds.SThread(target=publish, args=(u2, sig2, prio2)))
+            for t in ths:
+              t.start()
+            for t in ths:
+              t.join()
           else:
-            fabric.publish(Event(signal=sig, payload=u), priority=prio)
+            publish(u, sig, prio)
       s.quiesce()
     except ds.Verdict as v:
       ctx.violation('C06/' + v.kind, 'history ended in %s: %r' % (v.kind, v.info), {'ops': ops, 'queues': qtypes})
